@@ -248,8 +248,9 @@ theorem literalBound_false (q : Event) (D : List Var) (h : literalBound q D = fa
   exact h2 hD
 
 theorem outcomeParentValue_false (g : MG Name) (q : Event) (D : List Var) (h : outcomeParentValue g q D = false) :
-    ∀ w ∈ D, ∀ p, g.DiEdge p w.name → p ∈ D.map (·.name) → ∀ it ∈ q, it.1.name = p → it.2 = some ⟨p, false⟩ := by
-  intro w hw p hp hD it hit hname
+    ∀ w ∈ D, ∀ p, g.DiEdge p w.name → p ∉ subNames w → p ∈ D.map (·.name) →
+      ∀ it ∈ q, it.1.name = p → it.2 = some ⟨p, false⟩ := by
+  intro w hw p hp hsub hD it hit hname
   unfold outcomeParentValue at h
   rw [List.any_eq_false] at h
   have h1 := h w hw
@@ -257,7 +258,7 @@ theorem outcomeParentValue_false (g : MG Name) (q : Event) (D : List Var) (h : o
   rw [List.any_eq_false] at h1
   have h2 := h1 p ((mem_parents g p w.name).2 hp)
   simp only [Bool.and_eq_true, decide_eq_true_eq, not_and, Bool.not_eq_true] at h2
-  have h3 := h2 hD
+  have h3 := h2 ⟨hsub, hD⟩
   rw [List.any_eq_false] at h3
   have h4 := h3 it hit
   simp only [decide_eq_true_eq, not_and, not_not] at h4
@@ -286,7 +287,8 @@ structure QCtx (g : MG Name) (q : Event) (D : List Var) : Prop where
   cons : ∀ p ∈ q, ConsistentSubs p.1.ivs
   single : ∀ a ∈ D, ∀ b ∈ D, a.name = b.name → a = b
   lit : ∀ p ∈ q, ∀ i ∈ p.1.ivs, i.name ∈ D.map (·.name) → i.name ∈ q.map (·.1.name)
-  opv : ∀ w ∈ D, ∀ p, g.DiEdge p w.name → p ∈ D.map (·.name) → ∀ it ∈ q, it.1.name = p → it.2 = some ⟨p, false⟩
+  opv : ∀ w ∈ D, ∀ p, g.DiEdge p w.name → p ∉ subNames w → p ∈ D.map (·.name) →
+    ∀ it ∈ q, it.1.name = p → it.2 = some ⟨p, false⟩
   /-- no member sits on a self-loop of `g` (`get_counterfactual_factors` rejects the query otherwise) -/
   noLoop : ∀ w ∈ D, ¬ g.DiEdge w.name w.name
 
